@@ -13,7 +13,7 @@ import json
 import os
 import re
 
-from ..core import MachineryError
+from ..core import MachineryError, SPEC
 
 LAWS = ('Symmetric', 'HashConsistent', 'CaseInsensitive')
 
@@ -130,6 +130,18 @@ def norm_key(law, dx, dy, exy, eyx, hx, hy):
     return f"{law}:{dx['k']}~{dy['k']}:{rel}:eq={exy}{eyx}:hash={'same' if hx == hy else 'diff'}{extra}"
 
 
+def tier_cfg(ctx, name):
+    """Copy spec/<name>.cfg into the work dir with the universe size of the tier (thorough: Wide = TRUE)."""
+    with open(os.path.join(SPEC, name + '.cfg')) as fh:
+        text = fh.read()
+    if not ctx.quick:
+        text = text.replace('Wide = FALSE', 'Wide = TRUE')
+    p = os.path.join(ctx.work, f'{name}_{ctx.tier}.cfg')
+    with open(p, 'w') as fh:
+        fh.write(text)
+    return p
+
+
 def run(ctx):
     quick = ctx.quick
 
@@ -137,10 +149,10 @@ def run(ctx):
         if os.environ.get('VERIF_DEBUG'):
             print(f'[C11] {what}: t={ctx.elapsed():.1f}s', flush=True)
     # 1. design-level check of the specification
-    mcr = ctx.mc('MC_ExprEq', 'MC_ExprEq', timeout=1500, coverage=False, workers=2)
+    mcr = ctx.mc('MC_ExprEq', tier_cfg(ctx, 'MC_ExprEq'), timeout=600 if quick else 2400, coverage=False, workers=2)
     _t('mc')
     # 2. TLC enumerates the universe
-    r = ctx.tlc('Gen_ExprEq', 'Gen_ExprEq', timeout=600)
+    r = ctx.tlc('Gen_ExprEq', tier_cfg(ctx, 'Gen_ExprEq'), timeout=600)
     descs = [json.loads(v[1]) for v in r.prints('NODE')]
     if len(descs) < 300 or not r.ok:
         raise MachineryError(f'Gen_ExprEq exported {len(descs)} nodes\n{r.tail()}')
@@ -162,8 +174,8 @@ def run(ctx):
     _t('recorded')
     # 4. TLC evaluates each law on each row
     cases = [{'x': i + 1, 'law': law} for i in rows for law in LAWS]
-    verdicts = ctx.validate('Trace_ExprEq', 'Trace_ExprEq', cases, extra_env={'UNIVERSE': upath},
-                            shards=8 if quick else 12, timeout=1500)
+    verdicts = ctx.validate('Trace_ExprEq', tier_cfg(ctx, 'Trace_ExprEq'), cases, extra_env={'UNIVERSE': upath},
+                            shards=8 if quick else 12, timeout=600 if quick else 2400)
     _t('validated')
     nviol = 0
     per_law = {law: 0 for law in LAWS}
